@@ -18,7 +18,37 @@ var (
 func RegisterSchema(typ reflect.Type, s Schema) {
 	schemaRegistryMutex.Lock()
 	defer schemaRegistryMutex.Unlock()
-	schemaRegistry[typ] = s
+	schemaRegistry[typ] = s.clone()
+}
+
+// clone makes a deep copy of a Schema. Schemas handed to and out of the
+// registry are copied, so that editing a Schema returned by SchemaForType (or
+// the one passed to RegisterSchema) does not change the schema of every other
+// type that uses the same registered type.
+func (s Schema) clone() Schema {
+	c := Schema{Type: s.Type}
+	if s.Union != nil {
+		c.Union = make([]Schema, len(s.Union))
+		for i, u := range s.Union {
+			c.Union[i] = u.clone()
+		}
+	}
+	if s.Object != nil {
+		o := *s.Object
+		if o.Fields != nil {
+			o.Fields = make([]SchemaRecordField, len(s.Object.Fields))
+			for i, f := range s.Object.Fields {
+				o.Fields[i] = SchemaRecordField{Name: f.Name, Type: f.Type.clone()}
+			}
+		}
+		o.Items = o.Items.clone()
+		o.Values = o.Values.clone()
+		if o.Symbols != nil {
+			o.Symbols = append([]string(nil), o.Symbols...)
+		}
+		c.Object = &o
+	}
+	return c
 }
 
 // SchemaForType returns a Schema for the given type. It aims to produce a
@@ -39,7 +69,10 @@ func isInSchemaRegistry(typ reflect.Type) (Schema, bool) {
 	schemaRegistryMutex.RLock()
 	defer schemaRegistryMutex.RUnlock()
 	s, ok := schemaRegistry[typ]
-	return s, ok
+	if !ok {
+		return Schema{}, false
+	}
+	return s.clone(), true
 }
 
 func schemaForType(typ reflect.Type) (Schema, error) {
